@@ -695,6 +695,9 @@ def engine_corr(res, pagesize):
             gone = txs[w[1]]["handles"][w[2]] + [w[3]]
             for h in [h for h, pth in txs[w[1]]["handles"].items() if pth[:len(gone)] == gone]:
                 del txs[w[1]]["handles"][h]
+        elif w[0] in ("kvpairs", "nextint") and w[1] in txs and txs[w[1]]["w"] and w[2] in txs[w[1]]["handles"] and w[2] != "0" \
+                and a.split(":")[0] in ("items", "num") and "PANIC" not in a and "ENDLESS" not in a:
+            lines.append("%s %s | %s" % ("V" if w[0] == "kvpairs" else "N", "/".join(txs[w[1]]["handles"][w[2]]), a)); origin.append(i)
         elif w[0] in ("get", "scan", "seek", "range") and w[1] in txs and txs[w[1]]["w"] and w[2] in txs[w[1]]["handles"] \
                 and w[2] != "0" and a.split(":")[0] in ("opt", "items", "seek") and "PANIC" not in a and "ENDLESS" not in a:
             # reads the library answered INSIDE the write transaction: the model's overlay (model/EngineScan.v: the engine's
@@ -711,6 +714,8 @@ def engine_corr(res, pagesize):
             origin.append(i)
         elif w[0] == "buckets" and w[1] in txs and txs[w[1]]["w"] and w[2] in txs[w[1]]["handles"] and a.startswith("items:") \
                 and all(x.startswith("bk:") for x in a[6:].split()):
+            if w[2] != "0":
+                lines.append("B %s | %s" % ("/".join(txs[w[1]]["handles"][w[2]]), a)); origin.append(i)
             # the buckets() iterator of a WRITE transaction opens every nested bucket it passes: one Touch each
             for x in a[6:].split():
                 lines.append("T %s" % "/".join(txs[w[1]]["handles"][w[2]] + [x[3:]])); origin.append(i)
